@@ -699,6 +699,93 @@ private theorem types_mono (t : Nat) (ops : List Op) (st : State) (h : t ∈ st.
     | dispatch m hs => rw [show (applyOp st (.dispatch m hs)).types = st.types from (dispatch_subs st m hs).2.1]; exact h
     | tick ms => exact h
 
+
+private theorem register_types (st : State) (s : Sub) (t : Nat) :
+    t ∈ (register st s).1.types ↔ t ∈ st.types ∨ (s.typ = t ∧ t ≠ typeNone) := by
+  unfold register
+  by_cases h1 : s.typ = typeNone
+  · simp only [h1, if_true]
+    constructor
+    · exact Or.inl
+    · rintro (h | ⟨h, h'⟩)
+      · exact h
+      · exact absurd h.symm h'
+  · have key : t ∈ (if s.typ ∈ st.types then st.types else s.typ :: st.types) ↔
+        t ∈ st.types ∨ (s.typ = t ∧ t ≠ typeNone) := by
+      by_cases h3 : s.typ ∈ st.types
+      · simp only [h3, if_true]
+        constructor
+        · exact Or.inl
+        · rintro (h | ⟨h, _⟩)
+          · exact h
+          · exact h ▸ h3
+      · simp only [h3, if_false, List.mem_cons]
+        constructor
+        · rintro (h | h)
+          · exact Or.inr ⟨h.symm, by rw [h]; exact h1⟩
+          · exact Or.inl h
+        · rintro (h | ⟨h, _⟩)
+          · exact Or.inr h
+          · exact Or.inl h.symm
+    by_cases h2 : s ∈ st.subs
+    · simp only [h1, h2, if_true, if_false]; exact key
+    · simp only [h1, h2, if_false]; exact key
+
+/-- a type has a table entry iff some subscriber of that type (other than `MSG_TYPE_NONE`) was ever
+passed to `Register` — entries are never removed, not even when the last subscriber unregisters -/
+theorem types_exact (ops : List Op) (st : State) (t : Nat) :
+    t ∈ (runOps st ops).types ↔ t ∈ st.types ∨ ∃ s, Op.register s ∈ ops ∧ s.typ = t ∧ t ≠ typeNone := by
+  induction ops generalizing st with
+  | nil => simp [runOps]
+  | cons op ops ih =>
+    have := ih (applyOp st op)
+    simp only [runOps, List.foldl_cons] at this ⊢
+    rw [this]
+    cases op with
+    | register s =>
+      simp only [applyOp, register_types, List.mem_cons]
+      constructor
+      · rintro ((h | ⟨h1, h2⟩) | ⟨s', hs', h⟩)
+        · exact Or.inl h
+        · exact Or.inr ⟨s, Or.inl rfl, h1, h2⟩
+        · exact Or.inr ⟨s', Or.inr hs', h⟩
+      · rintro (h | ⟨s', hs' | hs', h⟩)
+        · exact Or.inl (Or.inl h)
+        · have : s' = s := by simpa using hs'
+          subst this
+          exact Or.inl (Or.inr h)
+        · exact Or.inr ⟨s', hs', h⟩
+    | unregister s =>
+      simp only [applyOp, (unregister_frame st s).2.2, List.mem_cons]
+      constructor
+      · rintro (h | ⟨s', hs', h⟩)
+        · exact Or.inl h
+        · exact Or.inr ⟨s', Or.inr hs', h⟩
+      · rintro (h | ⟨s', hs' | hs', h⟩)
+        · exact Or.inl h
+        · exact absurd hs' (by simp)
+        · exact Or.inr ⟨s', hs', h⟩
+    | dispatch m hs =>
+      simp only [applyOp, (dispatch_subs st m hs).2.1, List.mem_cons]
+      constructor
+      · rintro (h | ⟨s', hs', h⟩)
+        · exact Or.inl h
+        · exact Or.inr ⟨s', Or.inr hs', h⟩
+      · rintro (h | ⟨s', hs' | hs', h⟩)
+        · exact Or.inl h
+        · exact absurd hs' (by simp)
+        · exact Or.inr ⟨s', hs', h⟩
+    | tick ms =>
+      simp only [applyOp, tick, List.mem_cons]
+      constructor
+      · rintro (h | ⟨s', hs', h⟩)
+        · exact Or.inl h
+        · exact Or.inr ⟨s', Or.inr hs', h⟩
+      · rintro (h | ⟨s', hs' | hs', h⟩)
+        · exact Or.inl h
+        · exact absurd hs' (by simp)
+        · exact Or.inr ⟨s', hs', h⟩
+
 /-- **Repeats after the window are delivered again.** If no message with the same key was dispatched
 in between and the clock has advanced by more than the window, the message is handed (again) to
 exactly the subscribers then registered and matching. -/
